@@ -53,6 +53,11 @@ pub fn contract_start_evaluating<T: AsRef<str>>(i: &mut Interpreter, _line: T) -
         i.state = InterpreterState::Idle;
         return Ok(());
     }
+    if _line.as_ref().as_bytes() == b"NEW" {
+        // the one command whose outcome the adapter must react to (interpreter.rs: "NEW" arm)
+        i.state = InterpreterState::NewInterpreterRequested;
+        return Ok(());
+    }
     let outcome: u8 = kani::any();
     match outcome {
         0 => {
